@@ -19,12 +19,12 @@ package geometry
 //@     ite(b.X != a.X, (p.X-a.X)/(b.X-a.X), ite(b.Y != a.Y, (p.Y-a.Y)/(b.Y-a.Y), 0)) }
 
 //@ func eqZero
-//@   props C19 C01 C02 C03
+//@   props C19 C01 C02 C03 C09
 //@   pure
 //@   ensures result == (x == 0)
 
 //@ func Segment.Raycast
-//@   props C19 C01 C02 C03
+//@   props C19 C01 C02 C03 C09
 //@   ensures On: result.On == onSeg(seg.A, seg.B, point)
 //@   ensures In: result.In == rayIn(seg.A, seg.B, point)
 //@   loop 0 invariant p.X == point.X && (p.Y == point.Y || (p.Y == point.Y + eps && (point.Y == a.Y || point.Y == b.Y) && p.Y != a.Y && p.Y != b.Y))
@@ -35,11 +35,11 @@ package geometry
 //@   ensures result == onSeg(seg.A, seg.B, point)
 
 //@ func Segment.CollinearPoint
-//@   props C19 C02
+//@   props C19 C02 C09
 //@   ensures result == (cross(seg.A, seg.B, point) == 0)
 
 //@ func Segment.ContainsSegment
-//@   props C19 C03
+//@   props C19 C03 C09
 //@   ensures result == (onSeg(seg.A, seg.B, other.A) && onSeg(seg.A, seg.B, other.B))
 
 //@ spec func rxsOf(a Point, b Point, c Point, d Point) real { (b.X-a.X)*(d.Y-c.Y) - (b.Y-a.Y)*(d.X-c.X) }
@@ -48,14 +48,14 @@ package geometry
 
 // Cramer's rule for the 2x2 system behind meet(): pure polynomial identities.
 //@ lemma cramer(a Point, b Point, c Point, d Point, s real, t real)
-//@   props C19 C02 C03
+//@   props C19 C02 C03 C09
 //@   requires meet(a,b,c,d,s,t)
 //@   ensures Lin: s*rxsOf(a,b,c,d) == cmpxsOf(a,b,c,d) && t*rxsOf(a,b,c,d) == cmpxrOf(a,b,c,d)
 //@   ensures Quot: rxsOf(a,b,c,d) != 0 ==> s == cmpxsOf(a,b,c,d)/rxsOf(a,b,c,d) && t == cmpxrOf(a,b,c,d)/rxsOf(a,b,c,d)
 //@   ensures Recip: rxsOf(a,b,c,d) != 0 ==> s == cmpxsOf(a,b,c,d)*(1/rxsOf(a,b,c,d)) && t == cmpxrOf(a,b,c,d)*(1/rxsOf(a,b,c,d))
 
 //@ lemma onSegParam(a Point, b Point, p Point)
-//@   props C19 C02 C03
+//@   props C19 C02 C03 C09
 //@   requires onSeg(a,b,p)
 //@   ensures Range: 0 <= param(a,b,p) && param(a,b,p) <= 1
 //@   ensures Pt: a.X + param(a,b,p)*(b.X-a.X) == p.X && a.Y + param(a,b,p)*(b.Y-a.Y) == p.Y
@@ -66,7 +66,7 @@ package geometry
 // its meaning is given by the True/False clauses below
 //@ spec func isegS(g Segment, h Segment) bool
 //@ func Segment.IntersectsSegment
-//@   props C19 C02 C03
+//@   props C19 C02 C03 C09
 //@   pureas isegS
 //@   ghost gs real
 //@   ghost gt real
@@ -171,7 +171,7 @@ package geometry
 //@   ensures result == segRect(seg)
 
 //@ func Rect.IntersectsRect
-//@   props C02 C04 C01
+//@   props C02 C04 C01 C09
 //@   arith order
 //@   ensures result == rectsMeet(rect, other)
 
@@ -223,7 +223,7 @@ package geometry
 // Search protocol (C04): exactly the segments whose bounding box meets the query rectangle, once each,
 // with their position index, nothing after the callback returned false.
 //@ func Rect.Search
-//@   props C04 C01
+//@   props C04 C01 C05
 //@   arith order
 //@   iter iter(idx) dom 0 <= idx && idx < 4 ; match rectsMeet(segRect(rectSeg(rect, idx)), target) ; args rectSeg(rect, idx), idx
 //@   loop 0 invariant 0 <= i && i <= 4 && idx == i && rectNumSegments == 4 && !stopped
@@ -241,7 +241,7 @@ package geometry
 // the same invariant behind an opaque name: passed across a state merge by congruence instead of being re-expanded over merged heaps
 //@ spec func idxOK(s *baseSeries) bool opaque { IndexInv(s) }
 //@ func baseSeries.Search
-//@   props C04 C01 C08
+//@   props C04 C01 C08 C05
 //@   arith order
 //@   requires series != nil && IndexInv(series)
 //@   iter iter(idx) dom 0 <= idx && idx < bsNseg(series) ; match rectsMeet(segRect(bsSeg(series, idx)), rect) ; args bsSeg(series, idx), idx
@@ -289,7 +289,7 @@ package geometry
 //@   requires SeriesInv(self) && 0 <= index && index < sNseg(self)
 //@   ensures result == sSeg(self, index)
 //@ func Series.Search
-//@   props C04 C01
+//@   props C04 C01 C05
 //@   requires SeriesInv(self)
 //@   iter iter(idx) dom 0 <= idx && idx < sNseg(self) ; match rectsMeet(segRect(sSeg(self, idx)), rect) ; args sSeg(self, idx), idx
 
@@ -383,11 +383,11 @@ package geometry
 
 //@ spec func rectHas(r Rect, p Point) bool { p.X >= r.Min.X && p.X <= r.Max.X && p.Y >= r.Min.Y && p.Y <= r.Max.Y }
 //@ func Rect.ContainsPoint
-//@   props C01 C03
+//@   props C01 C03 C09
 //@   arith order
 //@   ensures result == rectHas(rect, point)
 //@ func Rect.IntersectsPoint
-//@   props C01 C02
+//@   props C01 C02 C09
 //@   arith order
 //@   ensures result == rectHas(rect, point)
 
@@ -539,23 +539,23 @@ package geometry
 
 // ---- Point
 //@ func Point.ContainsPoint
-//@   props C01 C03
+//@   props C01 C03 C09
 //@   arith order
 //@   ensures result == (point == other)
 //@ func Point.IntersectsPoint
-//@   props C01 C02
+//@   props C01 C02 C09
 //@   arith order
 //@   ensures result == (point == other)
 //@ func Point.IntersectsRect
-//@   props C01 C02
+//@   props C01 C02 C09
 //@   arith order
 //@   ensures result == rectHas(rect, point)
 //@ func Point.IntersectsLine
-//@   props C01 C02
+//@   props C01 C02 C09
 //@   requires line != nil ==> LineInv(line)
 //@   ensures result == (line != nil && lineHas(line, point))
 //@ func Point.IntersectsPoly
-//@   props C01 C02
+//@   props C01 C02 C09
 //@   requires poly != nil ==> PolyInv(poly)
 //@   ensures result == (poly != nil && polyHas(poly, point))
 
@@ -786,12 +786,12 @@ package geometry
 //@ spec func numBytesOf(n int) int { ite(n <= 255, 1, ite(n <= 65535, 2, 4)) }
 
 //@ func numBytes
-//@   props C04 C08
+//@   props C04 C08 C01
 //@   arith order
 //@   ensures result == numBytesOf(n)
 
 //@ func appendNum
-//@   props C04 C08
+//@   props C04 C08 C01
 //@   arith order
 //@   requires Fits: (ibytes == 1 ==> num <= 255) && (ibytes == 2 ==> num <= 65535)
 //@   ensures Len: len(result) == len(dst) + widthOf(ibytes)
@@ -800,7 +800,7 @@ package geometry
 //@   ensures Bytes: forall k int :: len(dst) <= k && k < len(result) ==> 0 <= result[k] && result[k] <= 255
 
 //@ func readNum
-//@   props C04 C08
+//@   props C04 C08 C01 C05
 //@   arith order
 //@   requires len(data) >= widthOf(ibytes)
 //@   ensures result == numAt(data, 0, ibytes)
@@ -935,7 +935,7 @@ package geometry
 //@   ensures !inList(d,a,qN(d,a),j)
 
 //@ func qCompressSearch
-//@   props C04 C08
+//@   props C04 C08 C05
 //@   arith order
 //@   requires series != nil && QWF(data, addr, bounds, series.points, series.closed)
 //@   iter iter(item) dom qIn(data, addr, item) ; match rectsMeet(segRectOf(series.points, item), rect) ; args bsSeg(series, item), item
@@ -1041,7 +1041,7 @@ package geometry
 //@   induction k
 
 //@ func rnCompressSearch
-//@   props C04 C08
+//@   props C04 C08 C05
 //@   arith order
 //@   requires series != nil && RWF(data, addr, height, series.points, series.closed)
 //@   iter iter(item) dom rIn(data, addr, height, item) ; match rectsMeet(segRectOf(series.points, item), rect) ; args bsSeg(series, item), item
@@ -1064,7 +1064,7 @@ package geometry
 //@   proto call6 use rKidIn(data, addr, height, rCount(data, addr), i, $j)
 
 //@ func rCompressSearch
-//@   props C04 C08
+//@   props C04 C08 C05
 //@   arith order
 //@   requires series != nil && addr == 5 && RWFtop(data, series.points, series.closed)
 //@   iter iter(item) dom 0 <= item && item < bsNseg(series) ; match rectsMeet(segRectOf(series.points, item), rect) ; args bsSeg(series, item), item
